@@ -1,4 +1,5 @@
 import XalanModel.C14.Stylesheet
+import XalanModel.Generated.C14_Variant
 import Driver.Util
 /-
 xm_c14: runs generated stylesheets (as instruction trees) on the Lean model of the result-event machine.
@@ -96,7 +97,7 @@ def runLine (ts : List String) : String :=
     if ts.isEmpty then pure (decls, excl, src, body) else none) with
   | none => "bad"
   | some (decls, excl, src, body) =>
-    let r := runCase decls excl src body
+    let r := runCase XalanModel.Generated.C14_Variant.variant decls excl src body
     if r.bad then "BAD"
     else if r.st.err then "ERR | " ++ " ".intercalate r.tags.reverse
     else " ".intercalate (r.st.out.reverse.map showEv) ++ " | " ++ " ".intercalate r.tags.reverse
